@@ -1,4 +1,5 @@
 import JsightVerif.Model.ScanGen
+import JsightVerif.Model.Project
 /-
   Line-protocol driver (DESIGN Appendix A): one case per line on stdin, one
   canonical result line on stdout. Core-only so it links as a `lean_exe`.
@@ -30,8 +31,27 @@ def LexType.code : LexType → String
 
 def renderLex (l : Lexeme) : String := s!"{LexType.code l.ty}:{l.b}:{l.e}"
 
+/-- replace every double-quoted segment `"…"` (with backslash escapes) by `"_"` -/
+partial def canonQuotesAux (cs : List Char) (acc : List Char) : List Char :=
+  match cs with
+  | [] => acc.reverse
+  | '"' :: rest =>
+    -- find the closing quote
+    let rec close (r : List Char) : Option (List Char) :=
+      match r with
+      | [] => none
+      | '\\' :: _ :: r' => close r'
+      | '"' :: r' => some r'
+      | _ :: r' => close r'
+    match close rest with
+    | some after => canonQuotesAux after ('"' :: '_' :: '"' :: acc)
+    | none => canonQuotesAux rest ('"' :: acc)
+  | c :: rest => canonQuotesAux rest (c :: acc)
+
+def canonQuotes (s : String) : String := String.ofList (canonQuotesAux s.toList [])
+
 def renderFault : Fault → String
-  | .err m i => s!"err:{hexStr m.render}:{i}"
+  | .err m i => s!"err:{hexStr (canonQuotes m.render)}:{i}"
   | .panic _ => "panic"
   | .fuel => "fuel"
 
@@ -91,9 +111,91 @@ def cmdScan (args : List String) : String :=
     | _, _ => "BAD-INPUT"
   | _ => "BAD-INPUT"
 
+/-! ### proj: project scan (L1) -/
+
+def hexB (b : Bytes) : String := if b.isEmpty then "-" else hexOfBytes b
+
+def canonPrefix (m : String) : String :=
+  canonQuotes <|
+  if m.startsWith "UC|" || m.startsWith "EOF|" || m.startsWith "M|" then m else "M|" ++ m
+
+partial def renderTree (depth : Nat) : Tree Dir → List String
+  | .node d kids =>
+    let named := (d.named.toArray.qsort (fun a b => a.1 < b.1)).toList.map (fun kv => kv.1 ++ "=" ++ hexB kv.2)
+    let body := match d.body with
+      | some (f, b, e) => s!"{hexB f}:{b}:{e}"
+      | none => "-"
+    let me := s!"{depth};{d.kind.keyword};{hexB d.keyword};{",".intercalate named};{",".intercalate (d.unnamed.map hexB)};{hexB d.ann};{body};{if d.explicit then "E" else "I"};{hexB d.file};{d.kwBegin}:{d.kwEnd}"
+    me :: (kids.map (renderTree (depth + 1))).flatten
+
+structure ProjFile where
+  name : Bytes
+  isDir : Bool
+  content : Array UInt8
+  oracle : OracleTbl
+
+def mkFileSys (files : List ProjFile) : FileSys := fun p =>
+  match files.find? (fun f => f.name == p) with
+  | some f => if f.isDir then .found .dir else .found (.file f.content f.oracle.lenAt)
+  | none =>
+    -- a proper prefix that is a regular file makes the OS answer ENOTDIR
+    let segs := splitOn47 p
+    let prefixes := (List.range segs.length).filterMap (fun i => if i == 0 then none else some (joinSegs (segs.take i)))
+    if prefixes.any (fun q => files.any (fun f => f.name == q && !f.isDir)) then .osErr else .notExist
+
+def parseFiles : List String → Option (List ProjFile)
+  | [] => some []
+  | n :: k :: c :: o :: rest =>
+    match unhex n, unhex c, parseOracle o, parseFiles rest with
+    | some n, some c, some o, some fs => some (⟨n.toList, k == "D", c, o⟩ :: fs)
+    | _, _, _, _ => none
+  | _ => none
+
+def renderAccesses (acc : List (String × Bytes)) : String :=
+  "ACC " ++ ",".intercalate (acc.reverse.map (fun a => a.1 ++ ":" ++ hexB a.2)) ++ " | "
+
+def renderPErr (files : List ProjFile) (e : PErr) : String :=
+  let content (f : Bytes) : Bytes := match files.find? (fun x => x.name == f) with
+    | some x => x.content.toList
+    | none => []
+  match newLocation (content e.file) e.idx.toNat with
+  | none => "PANIC"
+  | some loc =>
+    let tr := e.trace.map (fun t => match newLocation (content t.1) t.2.toNat with
+      | some l => some s!"{hexB t.1}:{l.line}"
+      | none => none)
+    if tr.any (·.isNone) then "PANIC" else
+    s!"ERR {hexStr (canonPrefix e.msg)} {hexB e.file} {e.idx} {loc.line} {loc.col} {hexB loc.quote} {",".intercalate (tr.filterMap id)}"
+
+def projFuel (files : List ProjFile) : Nat :=
+  16 * (files.foldl (fun n f => n + f.content.size + 4) 0) + 64
+
+def cmdProj (args : List String) : String :=
+  match args with
+  | rootHex :: rest =>
+    match unhex rootHex, parseFiles rest with
+    | some root, some files =>
+      let root := root.toList
+      match files.find? (fun f => f.name == root && !f.isDir) with
+      | none => "BAD-INPUT no root"
+      | some rf =>
+        let core : Core := { current := { name := root, env := mkEnv rf.content rf.oracle.lenAt, sc := Sc.init .stateRoot } }
+        match Core.run (mkFileSys files) (projFuel files) core with
+        | .ok c => renderAccesses c.accesses ++ "TREE " ++ " ".intercalate ((c.ctx.forest.map (renderTree 0)).flatten)
+        | .error (.panic _) => "PANIC"
+        | .error .fuel => "FUEL"
+        | .error (.err e) =>
+          if e.msg.startsWith "M|ORACLE-MISS " then "MISS " ++ hexB e.file ++ " " ++ (e.msg.drop 14).toString
+          else
+            let r := renderPErr files e
+            if r == "PANIC" then r else renderAccesses e.acc ++ r
+    | _, _ => "BAD-INPUT"
+  | _ => "BAD-INPUT"
+
 def handle (line : String) : String :=
   match (line.trimAscii.toString.splitOn " ").filter (· ≠ "") with
   | "scan" :: args => cmdScan args
+  | "proj" :: args => cmdProj args
   | _ => "BAD-OP"
 
 partial def loop (h : IO.FS.Stream) (out : IO.FS.Stream) : IO Unit := do
